@@ -729,7 +729,9 @@ pub fn set_speed_run_opt(ctx: &mut Ctx, rng: &mut Rng, interval: Option<usize>, 
         neg_at = Some(j);
     }
     let trace = SpeedTrace::new(time.clone(), speed.clone(), None);
-    let parts = builder.make_set_speed_train_sim_and_parts(&b.net.links, &b.route, trace, interval);
+    let via_setter = ctx.prop == "C19" && rng.chance(0.5);
+    let build_interval = if via_setter { *rng.pick(&[None, Some(1), Some(2), Some(3), Some(5), Some(7)]) } else { interval };
+    let parts = builder.make_set_speed_train_sim_and_parts(&b.net.links, &b.route, trace, build_interval);
     let (mut sim, _tp2, path, train_res, _fb) = match parts {
         Ok(p) => p,
         Err(e) => {
@@ -739,6 +741,13 @@ pub fn set_speed_run_opt(ctx: &mut Ctx, rng: &mut Rng, interval: Option<usize>, 
         }
     };
     ctx.count("obs.set_speed_sims_built");
+    if via_setter {
+        if rng.chance(0.4) {
+            sim.set_save_interval(*rng.pick(&[None, Some(1), Some(2), Some(4), Some(6)]));
+        }
+        sim.set_save_interval(interval);
+        ctx.count("obs.set_speed_runs_with_interval_changed_through_the_setter");
+    }
     // C02 through the builder: profile of the sim's own path
     if ctx.prop == "C02" || ctx.prop == "C13" {
         crate::mon::path::check_speed_profile(ctx, &b.net, &b.route, &tp, &path, "TrainSimBuilder::make_set_speed_train_sim");
@@ -860,7 +869,11 @@ pub fn speed_limit_run(ctx: &mut Ctx, rng: &mut Rng, interval: Option<usize>, ex
     let builder = TrainSimBuilder::new("t".into(), b.spec.config.clone(), b.spec.consist.clone(), Some(o.into()), Some(dname.into()), init);
     let sim_days = *rng.pick(&[None, Some(1), Some(7), Some(365)]);
     let scenario_year = *rng.pick(&[None, Some(2025), Some(2040)]);
-    let mut sim = match builder.make_speed_limit_train_sim(&lm, interval, sim_days, scenario_year) {
+    // C19: half of the runs are built with another interval and brought to the wanted one through the top-level
+    // setter, in one or two calls (None -> n, n -> m with m not a multiple of n, n -> None -> m, ...)
+    let via_setter = ctx.prop == "C19" && rng.chance(0.5);
+    let build_interval = if via_setter { *rng.pick(&[None, Some(1), Some(2), Some(3), Some(5), Some(7)]) } else { interval };
+    let mut sim = match builder.make_speed_limit_train_sim(&lm, build_interval, sim_days, scenario_year) {
         Ok(s) => s,
         Err(e) => {
             ctx.count("obs.builder_err");
@@ -872,6 +885,13 @@ pub fn speed_limit_run(ctx: &mut Ctx, rng: &mut Rng, interval: Option<usize>, ex
         Ok(t) => t,
         Err(_) => return,
     };
+    if via_setter {
+        if rng.chance(0.4) {
+            sim.set_save_interval(*rng.pick(&[None, Some(1), Some(2), Some(4), Some(6)]));
+        }
+        sim.set_save_interval(interval);
+        ctx.count("obs.speed_limited_runs_with_interval_changed_through_the_setter");
+    }
     let train_res_json = serde_json::to_value(&sim.train_res).unwrap_or(json!(null));
     let what: &'static str = match ext {
         Extension::Whole => "SpeedLimitTrainSim::walk (whole path)",
